@@ -308,3 +308,99 @@ def fit_world(args, scratch):
         except Exception:
             pass
     return out
+
+
+# ------------------------------------------------------------------------------------------
+# C06: combine_DL on synthetic result tables
+# ------------------------------------------------------------------------------------------
+def gen_table(rng):
+    U = rng.randint(2, 40)
+    N = rng.randint(max(U, 2), 4 * U)
+    idx = [rng.randrange(U) for _ in range(N)]
+    mode = rng.random()
+    if mode < 0.4:            # surjection: every unique has a variant
+        for u in range(U):
+            idx[rng.randrange(N)] = u
+    elif mode < 0.6:          # concentrate on few uniques: many without variants
+        keep = rng.sample(range(U), max(1, U // 3))
+        idx = [rng.choice(keep) for _ in range(N)]
+    grid = [1.5, 2.0, 2.0, 3.25, 10.0, 10.0, 7.5]
+    pal = grid + [float('inf'), float('nan')]
+    rows = []
+    prev_nll = []
+    npar = rng.choice([4, 4, 4, 5])
+    for i in range(N):
+        c = rng.random()
+        if c < 0.25 and prev_nll:
+            nll = rng.choice(prev_nll)            # exact repeat of an earlier likelihood
+        elif c < 0.6:
+            nll = rng.choice(pal)
+        else:
+            nll = round(rng.uniform(0, 20), rng.choice([0, 1, 3]))
+        if nll == nll and nll != float('inf'):
+            prev_nll.append(nll)
+        cl = rng.choice([0.0, 0.5, 1.0, 2.0, float('inf'), float('nan'), round(rng.uniform(-2, 6), 2)])
+        rows.append([nll, cl, float(idx[i])] + [rng.choice([0.0, round(rng.uniform(-3, 3), 4)]) for _ in range(npar)])
+    aif = [rng.choice([1.0986123, 2.1972246, 3.2958369, 5.4930614, 2.0]) for _ in range(N)]
+    return dict(U=U, N=N, rows=rows, aif=aif, idx=idx)
+
+
+def combine_world(args, scratch):
+    import numpy as np
+    from oracles import rank_model
+    os.makedirs(scratch, exist_ok=True)
+    make_farm(scratch, args.get('canary'), args.get('repo'))
+    comp = int(args.get('compl', 3))
+    case = gen_table(random.Random(int(args['table_seed'])))
+    out = {}
+
+    def write_inputs(data_dir):
+        lib = libdir(scratch, 'synth', comp)
+        os.makedirs(lib, exist_ok=True)
+        with open('%s/unique_equations_%d.txt' % (lib, comp), 'w') as f:
+            f.write(''.join('u%d(x)\n' % i for i in range(case['U'])))
+        with open('%s/all_equations_%d.txt' % (lib, comp), 'w') as f:
+            f.write(''.join('f%d(x)\n' % i for i in range(case['N'])))
+        np.savetxt('%s/aifeyn_%d.txt' % (lib, comp), np.array(case['aif']))
+        od = '%s/%s/fitting/output/output_run' % (scratch, data_dir)
+        os.makedirs(od)
+        os.makedirs('%s/%s/fitting/output/partial_run' % (scratch, data_dir))
+        np.savetxt('%s/codelen_matches_comp%d.dat' % (od, comp), np.array(case['rows']), fmt='%.7e')
+        np.savetxt('%s/%s/data.txt' % (scratch, data_dir), np.array([[1., 1., 1.], [2., 2., 1.]]))
+        return lib, od
+    lib, od = write_inputs('user')
+    like = dict(name='L', cls='Gauss', data_file='data.txt', run_name='run', data_dir='user', fn_set='synth')
+    prog = [['like', like], ['fit', dict(stage='combine', comp=comp, like='L')]]
+    res = run_world(world_spec(args, prog), scratch)
+    out = slim(res, keep_choices=bool(args.get('keep_choices', True)))
+    probs, stats = [], {}
+    if res['violation'] is None and res['diverged'] is None:
+        uniq, allf, aif, rows = rank_model.parse_inputs(lib, od, comp)
+        try:
+            probs, stats = rank_model.check_final('%s/final_%d.dat' % (od, comp), uniq, allf, aif, rows)
+        except FileNotFoundError as e:
+            probs = [('missing-output', os.path.basename(str(e.filename)))]
+        left = sorted(os.listdir(os.path.dirname(od) + '/partial_run'))
+        if left:
+            probs.append(('temp-files-left', left[:4]))
+        # the sequential run as reference (byte equality unless DL ties make the order a free choice)
+        if not probs and res['P'] > 1 and stats.get('ties', 0) == 0:
+            lib2, od2 = write_inputs('user1')
+            like2 = dict(like, data_dir='user1')
+            a2 = dict(args, P=1, policy={'kind': 'lowest'}, script=None)
+            res2 = run_world(world_spec(a2, [['like', like2], ['fit', dict(stage='combine', comp=comp, like='L')]]), scratch)
+            if res2['violation'] is not None:
+                probs.append(('cmp-world-failed', res2['violation']['sig']))
+            else:
+                h1, h2 = file_hashes(od), file_hashes(od2)
+                f = 'final_%d.dat' % comp
+                if h1.get(f) != h2.get(f):
+                    probs.append(('differs-from-1-rank-run', f))
+                stats['cmp'] = 1
+    out['probs'] = [list(map(str, p)) for p in probs][:10]
+    out['sig'] = ('final-table:%s' % probs[0][0]) if probs else None
+    out['stats'] = stats
+    out['table'] = dict(U=case['U'], N=case['N'])
+    if args.get('sample'):
+        out['table_sample'] = dict(U=case['U'], N=case['N'], first_rows=case['rows'][:4], first_index=case['idx'][:12])
+    return out
